@@ -53,9 +53,10 @@ condition is needed) and every source without `<`:
                                behind the inline stage are `prettify` and `unescape` only (footnotes, abbr, attr_list,
                                toc off): `convertXBig = err` only if the `<div>` strip fails.
 
-8. `C02_convertXBig_total_fenced` — 5. WITH fenced_code, for sources without `&` (then `HtmlBlockPreprocessor` leaves the
-                               text with the raw-HTML placeholders of the fenced blocks alone) and `tab_length ≥ 1`:
-                               every placeholder is a block of its own (`C02_fenced_preprocessor`), so it becomes a
+8. `C02_convertXBig_total_fenced` — 5. WITH fenced_code (`tab_length ≥ 1`):
+                               every placeholder is a block of its own (`C02_fenced_preprocessor`), also after
+                               `HtmlBlockPreprocessor` has re-spelled the character references
+                               (`C02_raw_html_preprocessor_inserts`, `C02_raw_html_preprocessor_keeps_blocks`), so it becomes a
                                paragraph of its own and reaches no atomic text, attribute or table
                                (`C02_block_stage_fenced`, an instance of worker fc2's generic block-stage invariant for
                                ARBITRARY text), the tree holds no inline placeholder, and `RawHtmlPostprocessor`
@@ -75,16 +76,26 @@ condition is needed) and every source without `<`:
                                (`C02_block_parser_keeps_root`, `C02_runX_keeps_root`, `C02_treeXBig_rootDiv` — with
                                admonition too), so `convertXBig ≠ err` (`C02_convertXBig_never_err`).
 
-11. `C02_convertXBig_ok_fenced` — 10. WITH fenced_code (sources without `&`, `tab_length ≥ 1`): the block stage keeps the
+11. `C02_convertXBig_ok_fenced` — 10. WITH fenced_code (`tab_length ≥ 1`): the block stage keeps the
                                STX-token invariant although the text holds the raw-HTML placeholders
                                (`C02_block_stage_fenced_tokens`), so `UnescapeTreeprocessor` does not raise
                                (`C02_convertXBig_never_err_fenced`); termination with wikilinks on as well
                                (`C02_convertXBig_total_fenced_wikilinks`).
 
+12. `C02_convertXBig_ok_abbr` — 10. and 11. in one statement, WITH abbr: `AbbrTreeprocessor` cuts texts at the
+                               occurrences of the abbreviations — also inside an escape token —, so behind it only the
+                               weaker, cut-closed invariant "no bad token" holds (`C02_abbr_treeprocessor_no_bad_token`),
+                               which is what `UnescapeTreeprocessor` needs (`C02_unescape_total_no_bad_token`).
+
+13. **`C02_convertXBig_ok_attr_list`** — … and WITH attr_list: for EVERY flag set without footnotes and toc `convertXBig`
+                               returns a string on every `<`-free source of the model's domain.
+                               `AttrListTreeprocessor` writes no bad token (`C02_attr_list_treeprocessor_no_bad_token`)
+                               and finds no attribute list at the root (`C02_treeXBig_rootDiv_attr_list`).
+
 Only property statements live here; proofs in `MdVerif/Lemmas/C02Big.lean`, `MdVerif/Lemmas/C02Big{Str,Pat,Run,Tree}.lean`
 (these four mirror `Lemmas/AmpFull*.lean` of C05 for the stronger invariant), `MdVerif/Lemmas/C02BigX.lean`,
 `MdVerif/Lemmas/C02BigXAll.lean`, `MdVerif/Lemmas/C02BigF*.lean` (8., 11.), `MdVerif/Lemmas/C02BigW*.lean` (9.),
-`MdVerif/Lemmas/C02BigSh{Block,All}.lean` (10.; `ShBlock` generated by `work/portSh.py` from c05x's `VocabXWFBlock3`) and
+`MdVerif/Lemmas/C02BigAbbr.lean` (12.), `MdVerif/Lemmas/C02BigAttr{,All}.lean` (13.), `MdVerif/Lemmas/C02BigSh{Block,All}.lean` (10.; `ShBlock` generated by `work/portSh.py` from c05x's `VocabXWFBlock3`) and
 `MdVerif/Lemmas/C02BigN{Pot,Em,Pat,HI,PP,Run}.lean` (`Pot`, `Em`, `Pat`, `PP` are copies of
 `Lemmas/InlineFuel{Pot,Em,Pat,PP}.lean` generated by `work/portN.py` for the extended weight; `HI`, `Run` transcribe
 `InlineFuelHI`, `InlineFuelRun`, `InlineFuelVisit` to the functions of `Model/InlineX.lean`).  Core Lean only.
@@ -96,6 +107,8 @@ import MdVerif.Lemmas.C02BigFAll
 import MdVerif.Lemmas.C02BigWAll
 import MdVerif.Lemmas.C02BigShAll
 import MdVerif.Lemmas.C02BigFTok
+import MdVerif.Lemmas.C02BigAbbr
+import MdVerif.Lemmas.C02BigAttrAll
 
 namespace MdVerif.C02Big
 open Py Block Inline InlineLocal NoCtl Vocab2 MdVerif.C08 MdVerif.C08Src
@@ -428,6 +441,27 @@ theorem C02_fenced_preprocessor {t t' : Str} {stash : List Str} (h : Fenced.fenc
     (NoCtlF.OwnBlock stash.length t' ∧ '&' ∉ t') ∧ ∀ e ∈ stash, NoCtl e :=
   NoCtlXF.XT.fencedRunA_own1 h hn ha
 
+/-- the same without the clause on `&` -/
+theorem C02_fenced_preprocessor_any {t t' : Str} {stash : List Str} (h : Fenced.fencedRunA t = .ok t' stash)
+    (hn : NoCtl t) : NoCtlF.OwnBlock stash.length t' ∧ ∀ e ∈ stash, NoCtl e :=
+  NoCtlXF.XT.fencedRunA_own0 h hn
+
+/-- **`HtmlBlockPreprocessor` on a `<`-free text only inserts `;`, and only immediately behind `&#` + a non-empty run
+    of hexadecimal digits / `x`** (`C02BigAmp.InsR`: the re-spelling of `html.parser`, `&#38x` ↦ `&#38;x`; c10x's
+    `extract_ins` with the place of the insertion) -/
+theorem C02_raw_html_preprocessor_inserts (s : Str) : C02BigAmp.InsR s (Extract.extract s) :=
+  C02BigAmp.extract_insR s
+
+/-- … hence it **keeps "every raw-HTML placeholder is a block of its own"**: a `;` lands neither inside a placeholder
+    (no `&` there) nor inside or next to the blank line around one (the character in front of it is a digit) -/
+theorem C02_raw_html_preprocessor_keeps_blocks (h : Nat) (s : Str) (ho : NoCtlF.OwnBlock h s) :
+    NoCtlF.OwnBlock h (Extract.extract s) :=
+  C02BigAmp.ownBlock_extract ho
+
+example : Extract.extract "&#38x\n\n\x02wzxhzdk:0\x03\n\n&#x2f\n".toList =
+    "&#38;x\n\n\x02wzxhzdk:0\x03\n\n&#x2f;\n".toList := by
+  decide +kernel
+
 /-- **The extended block parser on ANY text in which every placeholder is a block of its own** (every combination of
     admonition, def_list, footnotes, abbr, sane_lists, tables; `tab_length ≥ 1`): every element has a literal tag,
     attributes without STX/ETX, an atomic text only on `code` and without STX/ETX, and in its tail and non-atomic text
@@ -454,17 +488,17 @@ example : EntryLt "<pre><code>x\n</code></pre>".toList ∧ EntryLt "&amp;".toLis
 
 /-- **C02, termination of the extension pipeline on the sufficient fuel, with fenced_code**: every flag set without
     wikilinks (tables, admonition, def_list, abbr, sane_lists, attr_list, toc, footnotes, nl2br on or off), every
-    configuration with `tab_length ≥ 1`, every source without `&`: `convertXBig` never answers `oof`. -/
+    configuration with `tab_length ≥ 1`, every source: `convertXBig` never answers `oof`. -/
 theorem C02_convertXBig_total_fenced (x : Exts) (cfg : Pipeline.Cfg) (src : Str) (hw : x.wikilinks = false)
-    (hf : x.fencedCode = true) (ha : '&' ∉ src) (htab : 0 < cfg.tab) : convertXBig x cfg src ≠ .oof :=
-  convertXBig_ne_oof_fenced src hw hf ha htab
+    (hf : x.fencedCode = true) (htab : 0 < cfg.tab) : convertXBig x cfg src ≠ .oof :=
+  convertXBig_ne_oof_fenced src hw hf htab
 
 /-- two fenced blocks (one with a language, backticks and emphasis markers in the code; one with `~~~` holding a
     quote marker), a footnote, a heading with toc, nl2br -/
 def xFc : Exts := { xFn with attrList := false, fencedCode := true }
 def srcFc : Str := "# T\n\na[^1] *b*\n\n```py\nx = `1` *a*\n```\ntext\n~~~\n> q\n~~~\n\n[^1]: note\n".toList
 
-example : xFc.wikilinks = false ∧ xFc.fencedCode = true ∧ '&' ∉ srcFc ∧ 0 < ({} : Pipeline.Cfg).tab := by decide
+example : xFc.wikilinks = false ∧ xFc.fencedCode = true ∧ 0 < ({} : Pipeline.Cfg).tab := by decide
 
 /-- 390 characters, the output of the implementation -/
 example : (match convertXBig xFc {} srcFc, convertX xFc {} srcFc with
@@ -652,27 +686,27 @@ theorem C02_block_stage_fenced_tokens (h : Nat) (tables : Bool) (xc : BlockExt.X
   NoCtlXF.XT.block_stage_own_s tables xc htab ho hr
 
 /-- **`Markdown.convert` never raises with fenced_code** (footnotes, abbr, attr_list, toc off; the rest on or off;
-    `tab_length ≥ 1`; every source without `&`) -/
+    `tab_length ≥ 1`; every source) -/
 theorem C02_convertXBig_never_err_fenced (x : Exts) (hf : x.fencedCode = true) (hfn : x.footnotes = false)
     (hab : x.abbr = false) (hal : x.attrList = false) (htoc : x.toc = false) (cfg : Pipeline.Cfg) (src : Str)
-    (ha : '&' ∉ src) (htab : 0 < cfg.tab) : convertXBig x cfg src ≠ .err :=
-  convertXBig_ne_err_fenced hf hfn hab hal htoc cfg src ha htab
+    (htab : 0 < cfg.tab) : convertXBig x cfg src ≠ .err :=
+  convertXBig_ne_err_fenced hf hfn hab hal htoc cfg src htab
 
 /-- `C02_convertXBig_total_fenced` with wikilinks on, under the source hypothesis of section 9 -/
 theorem C02_convertXBig_total_fenced_wikilinks (x : Exts) (cfg : Pipeline.Cfg) (src : Str) (hs : WikiSrc cfg src)
-    (hf : x.fencedCode = true) (ha : '&' ∉ src) (htab : 0 < cfg.tab) : convertXBig x cfg src ≠ .oof :=
-  convertXBig_ne_oof_fenced_wiki src hs hf ha htab
+    (hf : x.fencedCode = true) (htab : 0 < cfg.tab) : convertXBig x cfg src ≠ .oof :=
+  convertXBig_ne_oof_fenced_wiki src hs hf htab
 
 /-- **C02 with fenced_code — `convert` returns a string**: fenced_code on; tables, admonition, def_list, sane_lists,
-    nl2br, wikilinks on or off; footnotes, abbr, attr_list, toc off; `tab_length ≥ 1`; every source without `<` and `&`
+    nl2br, wikilinks on or off; footnotes, abbr, attr_list, toc off; `tab_length ≥ 1`; every source without `<`
     of the model's domain (with admonition: no `!!!` followed by a non-ASCII character) in whose normalised text, when
     wikilinks is on, no `[` is immediately followed by a blank. -/
 theorem C02_convertXBig_ok_fenced (x : Exts) (hf : x.fencedCode = true) (hfn : x.footnotes = false)
     (hab : x.abbr = false) (hal : x.attrList = false) (htoc : x.toc = false) (cfg : Pipeline.Cfg) (src : Str)
-    (hlt : '<' ∉ src) (ha : '&' ∉ src) (htab : 0 < cfg.tab)
+    (hlt : '<' ∉ src) (htab : 0 < cfg.tab)
     (hadm : x.admonition = true → admNonAscii (Normalize.normalize cfg.tab src) = false)
     (hw : x.wikilinks = true → WikiSrc cfg src) : ∃ out, convertXBig x cfg src = .ok out :=
-  convertXBig_ok_fenced hf hfn hab hal htoc cfg src hlt ha htab hadm hw
+  convertXBig_ok_fenced hf hfn hab hal htoc cfg src hlt htab hadm hw
 
 /-- all seven on: an admonition with a wiki link, two fenced blocks (one with a language, backticks, emphasis markers
     and a bracket in the code; one with `~~~` holding a quote marker, a blank line and a table), a definition list, a
@@ -683,12 +717,156 @@ def srcBlkF : Str :=
    "|h|\n|-|\n|c|\n").toList
 
 example : xBlkF.fencedCode = true ∧ xBlkF.footnotes = false ∧ xBlkF.abbr = false ∧ xBlkF.attrList = false ∧
-    xBlkF.toc = false ∧ '<' ∉ srcBlkF ∧ '&' ∉ srcBlkF ∧ 0 < ({} : Pipeline.Cfg).tab ∧
+    xBlkF.toc = false ∧ '<' ∉ srcBlkF ∧ 0 < ({} : Pipeline.Cfg).tab ∧
     admNonAscii (Normalize.normalize ({} : Pipeline.Cfg).tab srcBlkF) = false ∧ WikiSrc {} srcBlkF := by decide +kernel
 
 /-- 363 characters, the output of the implementation -/
 example : (match convertXBig xBlkF {} srcBlkF, convertX xBlkF {} srcBlkF with
     | .ok a, .ok b => decide (a = b) && decide (a.length = 363)
+    | _, _ => false) = true := by decide +kernel
+
+/-- ampersands around and inside fenced blocks: character references without `;` (decimal, hexadecimal, at the end of
+    the text), an entity reference, a bare `&`; 176 characters, the output of the implementation -/
+def srcAmpF : Str :=
+  "a &#38x &amp; & b &#12\n\n```py\nx = `1` & &#38x *a*\n```\n&#9\n~~~\n> q &amp;\n~~~\n\n&#x2f".toList
+
+example : (match convertXBig xBlkF {} srcAmpF, convertX xBlkF {} srcAmpF with
+    | .ok a, .ok b => decide (a = b) && decide (a.length = 176)
+    | _, _ => false) = true := by decide +kernel
+
+/-! ### 12. … with abbr -/
+
+/-- **`UnescapeTreeprocessor.run` does not raise on a tree none of whose texts, tails and attribute values holds a bad
+    token** (`STX digits ETX` with a number of at least 0x110000; `C02BigNB.NB s := ¬ BadToken s`).  This is weaker than
+    the STX-token invariant of sections 4 and 7 (`NodeS` implies it: `C02_no_bad_token`) and — unlike it — closed
+    under cutting a string into pieces. -/
+theorem C02_unescape_total_no_bad_token (t : Node) (h : t.Forall C02BigNB.NodeNB) : TreeProc.unescapeTree t ≠ none :=
+  C02BigNB.unescapeTree_NB h
+
+/-- **`AbbrTreeprocessor.run` writes no bad token**: every string it writes is a piece of a string it read (the text in
+    front of an occurrence, the abbreviation, the text behind it: `C02BigNB.segs_pieces`) or a title of the table. -/
+theorem C02_abbr_treeprocessor_no_bad_token (abbrs : List (Str × Str)) (ha : ∀ kv ∈ abbrs, C02BigNB.NB kv.2) (t : Node)
+    (h : t.Forall C02BigNB.NodeNB) : (AbbrTree.run abbrs t).Forall C02BigNB.NodeNB :=
+  C02BigNB.abbrRun_NB ha h
+
+/-- why the weaker invariant: with `*[42]: answer` the `42` inside the escape token of `\*` is an occurrence of the
+    abbreviation; the token is cut in two, the output holds a raw STX and ETX (39 characters, the output of the
+    implementation: `<p>\x02<abbr title="answer">42</abbr>\x03</p>`) — and nothing raises -/
+example : convertXBig { abbr := true } {} "*[42]: answer\n\n\\*".toList =
+    .ok "<p>\x02<abbr title=\"answer\">42</abbr>\x03</p>".toList := by decide +kernel
+
+/-- **`Markdown.convert` never raises** when footnotes, attr_list and toc are off — tables, admonition, def_list, ABBR,
+    sane_lists, nl2br, wikilinks, fenced_code on or off (`tab_length ≥ 1` with fenced_code); every configuration, every
+    source.  (`C02_convertXBig_never_err` and `C02_convertXBig_never_err_fenced` without their hypothesis on abbr.) -/
+theorem C02_convertXBig_never_err_abbr (x : Exts) (hfn : x.footnotes = false) (hal : x.attrList = false)
+    (htoc : x.toc = false) (cfg : Pipeline.Cfg) (src : Str) (htab : x.fencedCode = true → 0 < cfg.tab) :
+    convertXBig x cfg src ≠ .err :=
+  convertXBig_ne_err' hfn hal htoc cfg src htab
+
+/-- the root of the tree handed to the serializer is the bare `div`, abbr on or off -/
+theorem C02_treeXBig_rootDiv_abbr (x : Exts) (hfn : x.footnotes = false) (hal : x.attrList = false)
+    (htoc : x.toc = false) (cfg : Pipeline.Cfg) (src : Str) (u : Node) (html : List Str)
+    (h : treeXBig x cfg src = .ok u html) : C14X.rootDiv u = true :=
+  treeXBig_rootDiv' hfn hal htoc h
+
+/-- **C02 — `convert` returns a string — for every flag set without footnotes, attr_list and toc**: tables, admonition,
+    def_list, abbr, sane_lists, nl2br, wikilinks, fenced_code on or off; every configuration (`tab_length ≥ 1` when
+    admonition or fenced_code is on); every `<`-free source of the model's domain (with admonition: no `!!!` followed by
+    a non-ASCII character) in whose normalised text, when wikilinks is on, no `[` is immediately followed by a blank.
+    (`C02_convertXBig_ok` and `C02_convertXBig_ok_fenced` in one statement, with abbr.) -/
+theorem C02_convertXBig_ok_abbr (x : Exts) (hfn : x.footnotes = false) (hal : x.attrList = false) (htoc : x.toc = false)
+    (cfg : Pipeline.Cfg) (src : Str) (hlt : '<' ∉ src)
+    (htab : x.admonition = true ∨ x.fencedCode = true → 0 < cfg.tab)
+    (hadm : x.admonition = true → admNonAscii (Normalize.normalize cfg.tab src) = false)
+    (hw : x.wikilinks = true → WikiSrc cfg src) : ∃ out, convertXBig x cfg src = .ok out :=
+  convertXBig_ok' hfn hal htoc cfg src hlt htab hadm hw
+
+/-- all eight on: two abbreviations (one cuts the escape token of `\*`), a wiki link, a fenced block (no abbreviation
+    inside: the code is an `AtomicString`), an admonition, a definition list -/
+def xAbbr : Exts := { xBlkF with abbr := true }
+def srcAbbr : Str :=
+  ("*[42]: answer\n*[HTML]: Hyper Text\n\n\\* HTML 42 [[W]]\n\n```\nHTML &#38x\n```\n\n!!! note\n    HTML\n\n" ++
+   "t\n:   HTML d\n").toList
+
+example : xAbbr.footnotes = false ∧ xAbbr.attrList = false ∧ xAbbr.toc = false ∧ '<' ∉ srcAbbr ∧
+    0 < ({} : Pipeline.Cfg).tab ∧ admNonAscii (Normalize.normalize ({} : Pipeline.Cfg).tab srcAbbr) = false ∧
+    WikiSrc {} srcAbbr := by decide +kernel
+
+/-- 372 characters, the output of the implementation -/
+example : (match convertXBig xAbbr {} srcAbbr, convertX xAbbr {} srcAbbr with
+    | .ok a, .ok b => decide (a = b) && decide (a.length = 372)
+    | _, _ => false) = true := by decide +kernel
+
+/-! ### 13. … with attr_list -/
+
+/-- **`AttrListTreeprocessor.run` writes no bad token**: every attribute value the scanner produces is a piece of the
+    scanned string (`C02BigNB.scan_pieces`), a class is appended behind a blank; the new text of a block-level element is
+    a piece of the old one; the new tail of an inline element is the text behind the closing brace followed by the
+    unparsed remainder, which is empty or starts with `}` — no `STX digits ETX` can form across that seam
+    (`C02BigNB.nb_append_sep`). -/
+theorem C02_attr_list_treeprocessor_no_bad_token (bl : List Str) (t : Node) (h : t.Forall C02BigNB.NodeNB) :
+    (AttrListTree.run bl t).Forall C02BigNB.NodeNB :=
+  C02BigNB.attrRun_NB bl h
+
+/-- the seam: `INLINE_RE` takes the LAST `}` of the line, the scanner stops at the first; what is left goes BEHIND the
+    text that followed the brace (the output of the implementation for `*e*{: .f}rest } x` is `<em class="f">e</em> x}rest `) -/
+example : AttrList.inlineApply [] "{: .f}rest } x".toList = ([("class".toList, "f".toList)], " x}rest ".toList) := by
+  decide +kernel
+
+/-- **The root of the tree handed to the serializer is the bare `div`, attr_list on or off** (footnotes and toc off;
+    with ADMONITION too, on the sufficient fuel): `AttrListTreeprocessor` visits the root as well, but after prettify the
+    root's text, its tail and the tails of its children are `"\n"` or empty (c05x's `attrRun_root_attrs`; the block
+    parser leaves the top-level children without tails — every `XCfg` —, the inline stage keeps that on any fuel). -/
+theorem C02_treeXBig_rootDiv_attr_list (x : Exts) (hfn : x.footnotes = false) (htoc : x.toc = false)
+    (cfg : Pipeline.Cfg) (src : Str) (u : Node) (html : List Str) (h : treeXBig x cfg src = .ok u html) :
+    C14X.rootDiv u = true :=
+  treeXBig_rootDiv2 hfn htoc h
+
+/-- **`Markdown.convert` never raises when footnotes and toc are off** — tables, admonition, def_list, abbr, sane_lists,
+    ATTR_LIST, nl2br, wikilinks, fenced_code on or off (`tab_length ≥ 1` with fenced_code); every configuration, every
+    source. -/
+theorem C02_convertXBig_never_err_attr_list (x : Exts) (hfn : x.footnotes = false) (htoc : x.toc = false)
+    (cfg : Pipeline.Cfg) (src : Str) (htab : x.fencedCode = true → 0 < cfg.tab) : convertXBig x cfg src ≠ .err :=
+  convertXBig_ne_err2 hfn htoc cfg src htab
+
+/-- **C02 — `convert` returns a string — for every flag set without footnotes and toc** (nine of the eleven extensions
+    on or off): every configuration (`tab_length ≥ 1` when admonition or fenced_code is on); every `<`-free source of
+    the model's domain (`InDomain`, decidable: with admonition no `!!!` followed by a non-ASCII character; with fenced_code
+    and attr_list together no fenced block with options) in whose normalised text, when wikilinks is on, no `[` is
+    immediately followed by a blank. -/
+theorem C02_convertXBig_ok_attr_list (x : Exts) (hfn : x.footnotes = false) (htoc : x.toc = false)
+    (cfg : Pipeline.Cfg) (src : Str) (hlt : '<' ∉ src)
+    (htab : x.admonition = true ∨ x.fencedCode = true → 0 < cfg.tab) (hd : InDomain x cfg src)
+    (hw : x.wikilinks = true → WikiSrc cfg src) : ∃ out, convertXBig x cfg src = .ok out :=
+  convertXBig_ok2 hfn htoc cfg src hlt htab hd hw
+
+/-- … and the model with its own fuel answers the same string, or `oof` (the stack loop of `runX` on the linear fuel) -/
+theorem C02_convertX_ok_or_stack_fuel_attr_list (x : Exts) (hfn : x.footnotes = false) (htoc : x.toc = false)
+    (cfg : Pipeline.Cfg) (src : Str) (hlt : '<' ∉ src)
+    (htab : x.admonition = true ∨ x.fencedCode = true → 0 < cfg.tab) (hd : InDomain x cfg src)
+    (hw : x.wikilinks = true → WikiSrc cfg src) :
+    (∃ out, convertX x cfg src = .ok out ∧ convertXBig x cfg src = .ok out) ∨ convertX x cfg src = .oof := by
+  by_cases h : convertX x cfg src = .oof
+  · exact .inr h
+  · left
+    obtain ⟨out, ho⟩ := convertXBig_ok2 hfn htoc cfg src hlt htab hd hw
+    refine ⟨out, ?_, ho⟩
+    rw [← convertXBig_of_convertX_ne_oof_all h, ho]
+
+/-- all nine on: a heading with an escape, an id, two classes and a quoted value; an abbreviation; a paragraph with an
+    inline attribute list and one of its own; a fenced block; an attribute list inside an admonition; one that does not
+    apply (`dd`); a list item with the seam above -/
+def xAttr : Exts := { xAbbr with attrList := true }
+def srcAttr : Str :=
+  ("# T \\* {: #i .c .d k=\"v w\" }\n\n*[HTML]: H T\n\npara HTML *a*{: .x y=1 } b [[W]]\n{: #p .q }\n\n```py\nx\n```\n\n" ++
+   "!!! note\n    n\n    {: .adm }\n\nt\n:   d {: z='1' }\n\n- li *e*{: .f}rest } x\n").toList
+
+example : xAttr.footnotes = false ∧ xAttr.toc = false ∧ '<' ∉ srcAttr ∧ 0 < ({} : Pipeline.Cfg).tab ∧
+    InDomain xAttr {} srcAttr ∧ WikiSrc {} srcAttr := by decide +kernel
+
+/-- 414 characters, the output of the implementation -/
+example : (match convertXBig xAttr {} srcAttr, convertX xAttr {} srcAttr with
+    | .ok a, .ok b => decide (a = b) && decide (a.length = 414)
     | _, _ => false) = true := by decide +kernel
 
 end Ext
